@@ -122,7 +122,7 @@ def _refeq(it, a, c):
 # ---------------------------------------------------------------- panics --------------------------
 def _fmt_text(v):
     v = deref(v)
-    if isinstance(v, Opaque) and v.tag == 'fmtargs': return v.payload
+    if isinstance(v, Opaque) and v.tag == 'fmtargs': return ''.join(t if isinstance(t, str) else '{}' for t in v.payload[0])
     if isinstance(v, Str): return v.s if v.s is not None else '<sym>'
     return repr(v)
 
@@ -390,72 +390,155 @@ def sval(v):
     return v
 
 
-def render(it, v):
-    """text of a Display-able value if everything in it is concrete, else None."""
+def render_parts(it, v, depth=0):
+    """parts list (see Str.parts) of the Display text of a value, or None when not modelled."""
     v = deref(v)
-    if isinstance(v, bool): return 'true' if v else 'false'
-    if isinstance(v, int): return str(v)
-    if isinstance(v, Str): return v.s
+    if isinstance(v, bool): return ['true' if v else 'false']
+    if isinstance(v, int): return [str(v)]
+    if is_sym(v): return [('int', v)] if not z3.is_bool(v) else None
+    if isinstance(v, Str):
+        if v.s is not None: return [v.s]
+        return list(v.parts) if v.parts is not None else [v]
     if isinstance(v, Agg):
         n = v.name.split('::')[-1]
-        if n in ('Uint64', 'Uint128', 'Uint256', 'Uint512'):
-            return str(v.fields[0]) if not is_sym(v.fields[0]) else None
-        if n in ('Decimal', 'Decimal256'):
+        if v.name.startswith('cosmwasm_std::') and n in ('Uint64', 'Uint128', 'Uint256', 'Uint512'):
+            return [str(v.fields[0])] if not is_sym(v.fields[0]) else [('int', v.fields[0])]
+        if v.name.startswith('cosmwasm_std::') and n in ('Decimal', 'Decimal256'):
             x = v.fields[0]
-            if is_sym(x): return None
+            if is_sym(x): return [('dec', x)]
             w, f = divmod(x, E18)
-            return str(w) if f == 0 else ('%d.%018d' % (w, f)).rstrip('0')
-        if n == 'Addr': return v.fields[0].s
+            return [str(w) if f == 0 else ('%d.%018d' % (w, f)).rstrip('0')]
+        if v.name == 'cosmwasm_std::Addr': return render_parts(it, v.fields[0])
+        if v.name == 'cosmwasm_std::Timestamp':
+            x = v.fields[0].fields[0]
+            if is_sym(x): return None
+            return ['%d.%09d' % (x // 10**9, x % 10**9)]
+        if v.name == 'cosmwasm_std::Coin':
+            a = render_parts(it, v.fields[1]); d = render_parts(it, v.fields[0])
+            return a + d if a is not None and d is not None else None
+    # user Display impl in the loaded crates: run the real `fmt` body against a collecting Formatter
+    if isinstance(v, (Agg, Enum)) and depth < 4:
+        key = '<%s as std::fmt::Display>::fmt' % v.name
+        if it.prog.has(key):
+            buf = []
+            f = Opaque('formatter', buf)
+            try:
+                r = it.run(it.prog.get(key), [Ref([v], 0), Ref([f], 0)])
+            except Unsupported:
+                return None
+            if any(x is None for x in buf): return None
+            out = []
+            for x in buf: out.extend(x)
+            return out
     return None
 
 
+def parts_to_str(it, parts):
+    if parts is None: return Str(None, sym=it.ctx.fresh('str'))
+    merged = []
+    for p in parts:
+        if isinstance(p, str) and merged and isinstance(merged[-1], str): merged[-1] += p
+        else: merged.append(p)
+    if all(isinstance(p, str) for p in merged): return Str(''.join(merged))
+    if len(merged) == 1 and isinstance(merged[0], Str): return merged[0]
+    return Str(None, sym=it.ctx.fresh('str'), parts=merged)
+
+
+def render(it, v):
+    """text of a Display-able value if everything in it is concrete, else None."""
+    p = render_parts(it, v)
+    if p is None or not all(isinstance(x, str) for x in p): return None
+    return ''.join(p)
+
+
 def to_string(it, v):
-    r = render(it, v)
-    if r is not None: return Str(r)
-    v = deref(v)
-    if isinstance(v, Str): return v
-    if isinstance(v, Agg) and v.name == 'cosmwasm_std::Addr': return v.fields[0]
-    return Str(None, sym=it.ctx.fresh('str'))      # opaque text (content is never the subject of a property)
+    return parts_to_str(it, render_parts(it, v))
 
 
 @defmodel('std::string::ToString::to_string')
-def _to_string(it, a, c):
-    m = re.match(r'^<(.+) as std::string::ToString>::to_string$', c.inst)
-    if m:
-        key = norm('<%s as std::fmt::Display>::fmt' % m.group(1))
-        if it.prog.has(key) and render(it, a[0]) is None and isinstance(deref(a[0]), (Enum,)):
-            # user Display impl on an enum (e.g. AssetInfo): text = the inner string for the common cases
-            v = deref(a[0])
-            if len(v.fields) == 1 and isinstance(deref(v.fields[0]), Str): return deref(v.fields[0])
-    return to_string(it, a[0])
+def _to_string(it, a, c): return to_string(it, a[0])
 
 
 @model('core::fmt::rt::Argument::new_display', 'core::fmt::rt::Argument::new_debug', 'core::fmt::rt::Argument::new_lower_hex')
-def _fmt_arg(it, a, c): return Opaque('fmtarg', deref(a[0]))
+def _fmt_arg(it, a, c): return Opaque('fmtarg' if c.key.endswith('display') else 'fmtarg_dbg', deref(a[0]))
 
 
-@model('std::fmt::Arguments::new', 'std::fmt::Arguments::new_v1', 'std::fmt::Arguments::new_const', 'std::fmt::Arguments::new_v1_formatted',
-       'std::fmt::Arguments::from_str', 'std::fmt::Arguments::from_str_nonconst')
-def _fmt_args(it, a, c):
-    parts = []
-    for x in a:
-        x = deref(x)
-        if isinstance(x, Str): parts.append(x.s)
-        elif isinstance(x, Agg):
-            for y in x.fields:
-                y = deref(y)
-                if isinstance(y, Str): parts.append(y.s)
-                elif isinstance(y, Opaque) and y.tag == 'fmtarg':
-                    r = render(it, y.payload); parts.append(r if r is not None else '{?}')
-    return Opaque('fmtargs', ' '.join(str(p) for p in parts))
+def _decode_template(tpl, args):
+    """rustc's compact fmt::Arguments template -> list of literal str | ('arg', index)."""
+    out = []; i = 0; ai = 0
+    while True:
+        n = tpl[i]; i += 1
+        if n == 0: return out
+        if n < 0x80:
+            out.append(bytes(tpl[i:i + n]).decode()); i += n
+        elif n == 0x80:
+            ln = tpl[i] | (tpl[i + 1] << 8); i += 2
+            out.append(bytes(tpl[i:i + ln]).decode()); i += ln
+        elif n == 0xC0:
+            out.append(('arg', ai, True)); ai += 1
+        else:
+            plain = True
+            if n & 1: plain = plain and tpl[i:i + 4] == [0, 0, 0, 0]; i += 4   # flags
+            if n & 2: plain = False; i += 2
+            if n & 4: plain = False; i += 2
+            if n & 8: ai = tpl[i] | (tpl[i + 1] << 8); i += 2
+            out.append(('arg', ai, plain)); ai += 1
+
+
+@model('std::fmt::Arguments::new')
+def _fmt_args_new(it, a, c):
+    tpl = deref(a[0]); args = deref(a[1])
+    return Opaque('fmtargs', (_decode_template(list(tpl.fields), args.fields), list(args.fields)))
+
+
+@model('std::fmt::Arguments::from_str', 'std::fmt::Arguments::from_str_nonconst', 'std::fmt::Arguments::new_const')
+def _fmt_args_str(it, a, c):
+    s = deref(a[0])
+    if isinstance(s, Agg): s = deref(s.fields[0])
+    return Opaque('fmtargs', ([s.s], []))
+
+
+def fmtargs_parts(it, fa):
+    tpl, args = fa.payload
+    out = []
+    for t in tpl:
+        if isinstance(t, str): out.append(t); continue
+        arg = args[t[1]]
+        if not t[2] or not isinstance(arg, Opaque) or arg.tag != 'fmtarg': return None
+        p = render_parts(it, arg.payload)
+        if p is None: return None
+        out.extend(p)
+    return out
 
 
 @model('std::fmt::format', 'alloc::fmt::format', 'std::fmt::format::format_inner')
 def _format(it, a, c):
     x = deref(a[0])
-    if isinstance(x, Opaque) and x.tag == 'fmtargs' and '{?}' not in x.payload and False:
-        return Str(x.payload)
+    if isinstance(x, Opaque) and x.tag == 'fmtargs': return parts_to_str(it, fmtargs_parts(it, x))
     return Str(None, sym=it.ctx.fresh('fmt'))
+
+
+@model('std::fmt::Formatter::write_fmt')
+def _fmt_write_fmt(it, a, c):
+    f = deref(a[0]); x = deref(a[1])
+    if isinstance(f, Opaque) and f.tag == 'formatter':
+        f.payload.append(fmtargs_parts(it, x) if isinstance(x, Opaque) and x.tag == 'fmtargs' else None)
+    return OK(UNIT())
+
+
+@model('std::fmt::Formatter::write_str', 'std::fmt::Formatter::pad', '<str as std::fmt::Display>::fmt', '<std::string::String as std::fmt::Display>::fmt')
+def _fmt_write_str(it, a, c):
+    if c.key.endswith('Display>::fmt'): f = deref(a[1]); s = a[0]
+    else: f = deref(a[0]); s = a[1]
+    if isinstance(f, Opaque) and f.tag == 'formatter': f.payload.append(render_parts(it, s))
+    return OK(UNIT())
+
+
+def _display_fmt(it, a, c):
+    f = deref(a[1])
+    if isinstance(f, Opaque) and f.tag == 'formatter': f.payload.append(render_parts(it, a[0]))
+    return OK(UNIT())
+DEF_MODELS['std::fmt::Display::fmt'] = _display_fmt
 
 
 @model('std::string::String::new')
